@@ -543,3 +543,99 @@ Definition apply_quirks (su : startup) : startup :=
             else if zlist_eqb id [116; 109; 117; 120; 32; 51; 46; 52] then set_unicode cp true
             else cp in
   mkStartup cp (su_appid su) (su_termid su).
+
+(* ====================================================================================
+   The specification side: which delivered sequences ARE user input, and which event each
+   one stands for.  Written independently of [handle] (shape of the sequence only; mouse
+   fields by div/mod arithmetic instead of bit masks). *)
+
+(* SGR mouse report CSI < Cb ; Cx ; Cy M|m  (xterm ctlseqs, "Extended coordinates") *)
+Definition spec_mouse (inter : list Z) (ps : list (list Z)) (fin : Z) : option mouse :=
+  match inter, ps with
+  | [60], [cb :: _; cx :: _; cy :: _] =>
+      let button := cb mod 4 + 64 * ((cb / 64) mod 4) in
+      let mods := b2z (Z.testbit cb 2) MShift + b2z (Z.testbit cb 3) MAlt + b2z (Z.testbit cb 4) MCtrl in
+      let ty := if Z.testbit cb 5 then EventMotion
+                else if fin =? 109 then EventRelease else EventPress in
+      Some (mkMouse button (i64 (cy - 1)) (i64 (cx - 1)) ty mods)
+  | _, _ => None
+  end.
+
+(* the first value of the first parameter *)
+Definition p00 (ps : list (list Z)) : option Z :=
+  match ps with (v :: _) :: _ => Some v | _ => None end.
+
+(* CSI sequences that are key presses (everything that is not a report Vaxis knows).
+   CSI R is a key only while no cursor-position request is outstanding: the caller decides. *)
+Definition key_csi (inter : list Z) (ps : list (list Z)) (fin : Z) : bool :=
+  if fin =? 99 then negb (is_q inter)                                (* DA1 reply: CSI ? ... c *)
+  else if (fin =? 73) || (fin =? 79) then false                      (* focus in / out *)
+  else if fin =? 121 then false                                      (* DECRPM *)
+  else if (fin =? 77) || (fin =? 109) then false                     (* mouse *)
+  else if fin =? 116 then false                                      (* window reports *)
+  else if fin =? 83 then negb (is_q inter) || (zlen ps <? 3)         (* XTSMGRAPHICS reply *)
+  else if fin =? 110 then negb (is_q inter) || negb (zlen ps =? 2)   (* DSR reply *)
+  else if fin =? 117 then negb (is_q inter)                          (* kitty keyboard flags *)
+  else if fin =? 126 then
+    match inter, ps with
+    | [], [] => false                                                (* bare CSI ~ : ignored *)
+    | [], _ => match p00 ps with Some 200 | Some 201 => false | _ => true end
+    | _, _ => true
+    end
+  else true.
+
+Inductive uclass := UKey | UMouse (m : mouse) | UFocusIn | UFocusOut | UPasteStart | UPasteEnd
+                  | UCursorReply | UInternal.
+
+(* req: a cursor-position request is outstanding *)
+Definition classify (req : bool) (it : item) : uclass :=
+  match it with
+  | IPrint _ | IC0 _ | IEsc _ _ | ISS3 _ => UKey
+  | ICsi inter ps fin =>
+      if (fin =? 82) && req then UCursorReply
+      else if fin =? 73 then UFocusIn
+      else if fin =? 79 then UFocusOut
+      else if (fin =? 77) || (fin =? 109) then
+        match spec_mouse inter ps fin with Some m => UMouse m | None => UInternal end
+      else if fin =? 126 then
+        match inter, p00 ps with
+        | [], Some 200 => UPasteStart
+        | [], Some 201 => UPasteEnd
+        | _, _ => if key_csi inter ps fin then UKey else UInternal
+        end
+      else if key_csi inter ps fin then UKey else UInternal
+  | _ => UInternal
+  end.
+
+Section Spec.
+  Variable dec : item -> ikey.
+
+  (* user events one delivered sequence stands for; new paste flag; new request flag *)
+  Definition spec_item (p req : bool) (it : item) : list event * bool * bool :=
+    match classify req it with
+    | UKey => ([EKey (if p then mark_paste (dec it) else dec it)], p, req)
+    | UMouse m => ([EMouse m], p, req)
+    | UFocusIn => ([EFocusIn], p, req)
+    | UFocusOut => ([EFocusOut], p, req)
+    | UPasteStart => ([EPasteStart], true, req)
+    | UPasteEnd => ([EPasteEnd], false, req)
+    | UCursorReply => ([], p, false)
+    | UInternal => ([], p, req)
+    end.
+
+  Definition spec_app (req : bool) (a : appact) : bool :=
+    match a with
+    | ACursorQuery => true
+    | ACursorGiveUp => false
+    | _ => req
+    end.
+
+  (* the user events a whole interleaving must deliver, in order *)
+  Fixpoint spec_user (p req : bool) (l : list step) : list event :=
+    match l with
+    | [] => []
+    | SItem IEof :: _ => []
+    | SItem it :: t => let '(es, p', req') := spec_item p req it in es ++ spec_user p' req' t
+    | SApp a :: t => spec_user p (spec_app req a) t
+    end.
+End Spec.
